@@ -162,6 +162,21 @@ def typePrefix (x : Str) : Str :=
 /-- `s.rstrip("/")` -/
 def rstripSlash (s : Str) : Str := (s.reverse.dropWhile (· == '/')).reverse
 
+/-- a character a namespace URI may contain if it is to survive being written unescaped (`uriOk`) -/
+def uriCharOk (c : Char) : Bool :=
+  c != '"' && c != '&' && c != '<' && c != '\t' && c != '\n' && c != '\r'
+
+/-- what a row of the plugin table must satisfy for the theorems about `updateNs`: a well-formed prefix
+as key, a URI stem that can be written unescaped, a positive precision (`assert prec > 0`), versioned
+plugins have a viewpoint (`Plugin.__post_init__`), range bounds are dotted numbers.  Checked by the
+kernel for every row of the live table (`Capella/Gen/Ns.lean`). -/
+def Plugin.ok (p : Plugin) : Bool :=
+  nameOk p.key && p.key != xmlnsStr && uriOk (rstripSlash p.name) && decide (0 < p.precision) &&
+  (match p.version with
+   | .none => true
+   | .exact v => p.viewpoint.isSome && v.all (fun c => c != '?')
+   | .range lo hi => p.viewpoint.isSome && isVersionStr lo && isVersionStr hi)
+
 /-- `NAMESPACES_PLUGINS.get(ns)` -/
 def findPlugin (t : List Plugin) (ns : Str) : Option Plugin := t.find? (·.key == ns)
 
@@ -243,6 +258,10 @@ def scanGo (t : List Plugin) (vps : List (Str × Str)) : List Item → List (Str
       | .error e => .error e
       | .ok acc' => scanGo t vps rest acc'
 
+/-- specification side: some element of the tree asks for the binding `b` -/
+def Asked (t : List Plugin) (vps : List (Str × Str)) (items : List Item) (b : Str × Str) : Prop :=
+  ∃ x ∈ items, wanted t vps x.1 x.2.1 x.2.2 = .ok (some b)
+
 def nsInit : List (Str × Str) := [("xmi".toList, XMI), ("xsi".toList, XSI)]
 
 /-- `new_nsmap` -/
@@ -288,8 +307,15 @@ def updateNs (t : List Plugin) (vps : List (Str × Str)) (d : Doc) : Except NsEr
   | .ok n =>
     if dictEq d.root.nsdecls n then .ok d
     else if !noDeclsL d.root.kids then .error .childDeclares
-    else if !urisCovered (n.map (·.2)) d.root then .error .needsFixup
+    else if !urisCovered ((sortKV n).map (·.2)) d.root then .error .needsFixup
     else .ok ⟨d.pre, replaceRoot n d.root, d.post.reverse⟩
+
+/-- specification side: the prefix of every type occurring in the tree is declared on the root -/
+def typePrefixesDeclared (t : List Plugin) (d : Doc) : Bool :=
+  (iterS [] d.root).all fun x =>
+    match xtypeOf t x.2.1 x.2.2 with
+    | .ok (some ty) => (d.root.nsdecls.map (·.1)).contains (typePrefix ty)
+    | _ => true
 
 /-! ## `MelodyLoader.referenced_viewpoints`, `MelodyLoader.update_namespaces` -/
 
